@@ -31,7 +31,7 @@ RULE = ('air/vac: every menu wavelength (log lattice 100 A..30 um plus threshold
         '(solutions include wing3: traces reaching only 3-6 pixels into a band wing, summed weight ~1e-6 of the band), a reduced relation set in 5 memory layouts of flux/waveimg/mask, '
         'every single masked run of 1..10 pixels starting on the comb x wild values, and 14 mask flag conventions (bool, 0/1, bitmasks, uint8, int64, -1, int32 bit 31, mixed-sign flags summing to zero, float masks) x 5 runs; non-trivial = at least one band overlapped by the trace. '
         'Distinct = distinct (function, input, form/configuration) tuples.')
-ASSUMPTIONS = ['every trace passed to filter_thru keeps at least one unmasked pixel (with none the answer is undefined; the code then integrates the masked values)',
+ASSUMPTIONS = ['solution ends3: three traces with identical first and last wavelength and different dispersion; for one linear-combination case per adjacent comb pair every trace is also evaluated alone and must give the same answer as in the joint call', 'every trace passed to filter_thru keeps at least one unmasked pixel (with none the answer is undefined; the code then integrates the masked values)',
                'float64 forms: inverse relations to 1e-6 A as stated; agreement between forms to 1e-12 relative (unit-conversion rounding)',
                'float32 forms are compared at 1e-6 relative; a float32 cannot hold 1e-6 A at 5000 A',
                'filter_thru clauses are evaluated only in bands that at least one pixel of the trace overlaps by more than 5 A inside the '
